@@ -63,9 +63,10 @@ def run(ck):
         ck.explore(P, ["--depth=2", "--ohash=2"], "d2-b2-hash2", budget=2, min_budget=2, deadline_s=200, jobs=JOBS)
         ck.explore(P, ["--depth=2", "--ohash=0"], "d2-b2-hash-default", budget=2, min_budget=2, deadline_s=200, jobs=JOBS)
         ck.explore(P, ["--depth=3", "--ohash=2", "--init=2"], "d3-b2-hash2-world2", budget=2, min_budget=2, deadline_s=520, jobs=JOBS)
-        ck.explore(P, ["--depth=3", "--ohash=2", "--shapes=1"], "d3-b1-hash2-arg-shapes", budget=1, min_budget=1, deadline_s=280, jobs=JOBS)
+        ck.explore(P, ["--depth=2", "--ohash=2", "--shapes=1"], "d2-b1-hash2-arg-shapes", budget=1, deadline_s=60, jobs=JOBS)
+        ck.explore(P, ["--depth=3", "--ohash=2", "--shapes=1", "--init=3"], "d3-b1-hash2-arg-shapes-world3", budget=1, min_budget=1, deadline_s=230, jobs=JOBS)
         ck.explore(P, ["--depth=3", "--ohash=3"], "d3-b1-hash4", budget=1, min_budget=1, deadline_s=200, jobs=JOBS)
-        ck.explore(A, ["--depth=2", "--ohash=2", "--shapes=1"], "d2-b1-hash2-arg-shapes-asan", budget=1, deadline_s=150, jobs=JOBS)
+        ck.explore(A, ["--depth=2", "--ohash=2", "--shapes=1", "--init=3"], "d2-b1-hash2-arg-shapes-world3-asan", budget=1, deadline_s=140, jobs=JOBS)
     ck.finish(vlib.mc_coverage(ck.parts, RULE), assumptions=ASSUME)
 
 
